@@ -19,7 +19,7 @@ MANIFEST = dict(
          "the harness runs at light load and asserts arrival.  The claim is made for payloads whose base64 frame fits the 10 KiB "
          "message bound (stated in the theorems).  encoding/json's parser is an oracle constrained pointwise; the renderer is concrete "
          "and compared byte for byte.  Trusted: Coq kernel+VM, translator T1, harness transcription.",
-    technique="Coq proof (induction over histories, counting invariants, reflection over the translated schema) + differential correspondence via vm_compute",
+    technique="Coq proof (induction over histories, counting invariants, reflection over the translated schema) + differential correspondence via vm_compute; translator unit c03udp (loop-exit statements of the reply goroutine, WriteMsg arguments on the work connection, client reader decoding)",
     design="4/C03")
 
 
@@ -36,7 +36,7 @@ def timing_only(f):
 
 
 def recipe(c: Check):
-    c.build(["Properties/C03.vo", "Corr/C03.vo"], harness=["c03"], units=["t1"])
+    c.build(["Properties/C03.vo", "Corr/C03.vo"], harness=["c03"], units=["t1", "c03udp"])
     c.obligations("C03")
     n0 = len(c.failures)
     st = c.run_driver("udp", q(c.tier, 240, 3000), shards=q(c.tier, 8, 16), timeout=q(c.tier, 300, 1500))
@@ -68,7 +68,7 @@ def recipe(c: Check):
         if gate and cnt.get("NRACE", 0) < 1 and not c.broken:
             c.broken.append(dict(kind="coverage", name="the idle-boundary replay did not run although the gate is compiled in", detail=str(fb)))
         # sanity of the check itself: the branches the property names must have been reached
-        need = dict(NPKT=50, NOVERSIZE=1, NDECERR=5, NFWD=3, NSYS=4, NIDLE=1, NSOCKETS=6, NFULL=1, NCAP=1)
+        need = dict(NPKT=50, NOVERSIZE=1, NDECERR=5, NFWD=3, NSYS=4, NIDLE=1, NSOCKETS=6, NFULL=1, NCAP=1, NREPLYLOOP=1, NREFUSED=2, NALPHABET=1)
         for k, v in need.items():
             if cnt.get(k, 0) < v and not c.broken:
                 c.broken.append(dict(kind="coverage", name="counter %s=%s below %s: a branch the property names was not exercised" % (k, cnt.get(k, 0), v),
@@ -91,7 +91,11 @@ def recipe(c: Check):
              "very first datagram of every tunnel is a recorded one. Evaluated by the "
              "monitors C03_holds in Coq and in Go (payload equality, no duplicate, one socket one user, reply to the originating user only, "
              "arrival at light load outside the replacement window, per-user order without replacement). "
-             "Part race: the witness of C03_drop_only_when_full_or_replacing_refuted replayed on the real udp.Forwarder (loop held at the gate "
+             "Part replyloop: replies the OS refuses to send (port 0, nil address, broadcast) are pushed into readCh of the real "
+             "ForwardUserConn between ordinary round trips; every later reply must still reach its user (model rl_run). Part alphabet: a "
+             "scripted frpc sends Pings on a real udp work connection of frps while user datagrams arrive; everything frps writes there must be "
+             "a UDPPacket. Part heartbeat: real frps+frpc udp tunnel observed across frpc's 30 s work-connection heartbeat (background): the "
+             "backend receives only what users sent. Part race: the witness of C03_drop_only_when_full_or_replacing_refuted replayed on the real udp.Forwarder (loop held at the gate "
              "between mu.Unlock and Write while the socket's real 30 s deadline expires), compared with the lock-granularity model. "
              "distinct = distinct case text; non-trivial = non-empty payload/content",
         assumptions=["encoding/json parser is an oracle constrained pointwise in C03_datagram_roundtrip (it inverts the concrete renderer on the text at hand); the renderer is compared byte for byte on every run",
